@@ -67,6 +67,9 @@ class SSeq:
     # NORMALIZE: derived values that are fully concrete become real bytes/str (default). Harnesses whose
     # code under test calls real-str methods with proxy arguments (e.g. path.startswith(prefix)) switch it off.
     NORMALIZE = True
+    # CONST_HASH: every SStr/SBytes hashes to 0 so that CPython's dict compares keys through __eq__ (a solver-decided fork).
+    # Only sound when ALL keys of the dicts involved are proxies (a real str key hashes differently and would never be compared).
+    CONST_HASH = False
 
     def __init__(self, items=()):
         its = _items_of(items)
@@ -169,6 +172,8 @@ class SSeq:
         return not r
 
     def __hash__(self):
+        if SSeq.CONST_HASH:
+            return 0
         if self.concrete():
             return hash(self._real(self.items))
         raise cur()._raise(Unsupported("hash of a symbolic sequence (dict/set key)"))
@@ -518,16 +523,23 @@ class SStr(SSeq):
                 raise UnicodeEncodeError(enc, "￿", 0, 1, "ordinal not in range")
         return SBytes(self.items)
 
+    _TR_CACHE: dict = {}
+
     def translate(self, table):
-        """str.translate with a dict {code point: str}; one merged fork per output length."""
+        """str.translate with a dict {code point: str}; one merged fork per output length.
+        ITE terms per (table, character term) are cached across paths (building them dominates otherwise)."""
         import collections
-        by_len = collections.defaultdict(list)
-        for k, v in table.items():
-            if v is None:
-                v = ""
-            if _isinstance(v, _int):
-                v = chr(v)
-            by_len[len(v)].append((k, v))
+        tkey = id(table)
+        tc = SStr._TR_CACHE.setdefault(tkey, {"by_len": None, "terms": {}, "table": table})
+        if tc["by_len"] is None:
+            by_len = collections.defaultdict(list)
+            for k, v in table.items():
+                if v is None:
+                    v = ""
+                if _isinstance(v, _int):
+                    v = chr(v)
+                by_len[len(v)].append((k, v))
+            tc["by_len"] = sorted(by_len.items())
         out: List[Any] = []
         for c in self.items:
             if not _isinstance(c, SInt):
@@ -536,13 +548,21 @@ class SStr(SSeq):
                 out.extend(ord(x) for x in r)
                 continue
             done = False
-            for ln, kvs in sorted(by_len.items()):
-                if in_set(c, [k for k, _ in kvs]):
+            for ln, kvs in tc["by_len"]:
+                ck = (c.e.get_id(), ln)
+                ent = tc["terms"].get(ck)
+                if ent is None:
+                    member = _mkbool(z3.Or([c.e == k for k, _ in kvs]))
+                    terms = []
                     for j in range(ln):
                         t = z3.IntVal(0)
                         for k, v in kvs:
                             t = z3.If(c.e == k, z3.IntVal(ord(v[j])), t)
-                        out.append(SInt(z3.simplify(t)))
+                        terms.append(z3.simplify(t))
+                    ent = tc["terms"][ck] = (member, terms, c.e)
+                member, terms, _keep = ent
+                if member if _isinstance(member, bool) else bool(member):
+                    out.extend(SInt(t) for t in terms)
                     done = True
                     break
             if not done:
